@@ -141,6 +141,7 @@ type Path struct {
 	ghost    map[string]Value
 	funcs    map[string]int
 	unwind   int
+	unwindAssert string
 	rs       *raceState
 	quick    int
 	unknowns int
